@@ -356,10 +356,9 @@ func (c *Collection) GetAllIDs() []uint64 {
 ComputeAverageDistance calculates the average distance between random pairs of documents in the collection.
 It returns the average distance or 0.0 if there are fewer than two documents or if the sample size is non-positive.
 */
+// The caller must hold c.mutex: taking the read lock again here would
+// deadlock with a writer queued between the two acquisitions.
 func (c *Collection) computeAverageDistance(samples int) float64 {
-	c.mutex.RLock()
-	defer c.mutex.RUnlock()
-
 	if samples <= 0 {
 		return 0.0
 	}
